@@ -62,7 +62,7 @@ class Rig:
 
     def run(self, scenario, config_toml="", args=(), signals=(), timeout=60, env_extra=None,
             subcommand="run", keep=False, tap_fail_at=None, supervise_stop=False, private_binaries=(),
-            hooks=()):
+            hooks=(), tool_configs=()):
         """private_binaries: binary ids whose executable is copied into the run directory (the copy's
         path is returned in res['private'][id]) so that a hook can tamper with it during the run.
         hooks: list of (trigger(ctx)->bool, action(ctx)) run once from the signal thread."""
@@ -105,10 +105,16 @@ class Rig:
                 private[bid] = dst
             binmeta = os.path.join(d, "binaries-metadata.json")
             json.dump(bm, open(binmeta, "w"))
+        tool_args = []
+        for tool, text in tool_configs:
+            # tool_configs: list of (tool name, TOML text), passed as --tool-config-file <tool>:<path>
+            tp = os.path.join(d, f"tool-{tool}.toml")
+            open(tp, "w").write(text)
+            tool_args += ["--tool-config-file", f"{tool}:{tp}"]
         cmd = [self.nextest, "nextest", subcommand,
                "--cargo-metadata", os.path.join(self.meta, "cargo-metadata.json"),
                "--binaries-metadata", binmeta,
-               "--config-file", cfg] + list(args)
+               "--config-file", cfg] + tool_args + list(args)
         t0 = time.monotonic()
         p = subprocess.Popen(cmd, cwd=PUPPET, env=env, stdout=subprocess.PIPE, stderr=subprocess.PIPE,
                              start_new_session=True)
